@@ -19,6 +19,7 @@ type Clause struct {
 	Text  string
 	Props []string // property ids this clause is counted under (empty = the function's props)
 	Mode  string   // "" | "int" | "bv": only used in that arithmetic mode
+	Group string   // proof group (%name): see scriptRegionGroup
 	Src   string
 }
 
@@ -69,6 +70,7 @@ type Contract struct {
 	SafetyProps []string
 	FrameProps  []string
 	NoSafety    bool
+	Group       string
 	Export      bool // lemma proved in bv mode and assumed (over the uninterpreted bit functions) in int mode
 	WrapArith   bool // int mode: model wrap-around exactly instead of proving its absence
 }
@@ -345,6 +347,11 @@ func (sp *Specs) loadFile(path string, goFile bool) error {
 					}
 				case "export":
 					c.Export = true
+				case "group":
+					if k+1 < len(head) {
+						c.Group = head[k+1]
+						k++
+					}
 				case "props":
 					c.Props = head[k+1:]
 					k = len(head)
@@ -572,6 +579,15 @@ func parseClause(s string, src string) (Clause, error) {
 				return cl, fmt.Errorf("clause has only a tag")
 			}
 			cl.Props = append(cl.Props, s[1:i])
+			s = strings.TrimSpace(s[i:])
+			continue
+		}
+		if strings.HasPrefix(s, "%") {
+			i := strings.IndexAny(s, " \t")
+			if i < 0 {
+				return cl, fmt.Errorf("clause has only a tag")
+			}
+			cl.Group = s[1:i]
 			s = strings.TrimSpace(s[i:])
 			continue
 		}
